@@ -548,6 +548,12 @@ class TransferManager(BaseManager):
 
         # Downloads will just get remotely queued
         for download in downloads:
+            # A previous attempt to queue the download remotely is still in
+            # progress (slow connect): starting another one would orphan that
+            # task and queue the download twice
+            if download._remotely_queue_task is not None:
+                continue
+
             download._remotely_queue_task = asyncio.create_task(
                 self._queue_remotely(download),
                 name=f'queue-remotely-{task_counter()}'
